@@ -35,7 +35,7 @@ type tierCfg struct {
 }
 
 var tiers = map[string]tierCfg{
-	"quick":    {name: "quick", corpusSize: 6200, isoSample: 200, procs: 160, runs: 250, maxStep: 600000, procWall: 5 * time.Minute},
+	"quick":    {name: "quick", corpusSize: 6200, isoSample: 200, procs: 128, runs: 250, maxStep: 600000, procWall: 5 * time.Minute},
 	"thorough": {name: "thorough", corpusSize: 13000, isoSample: -1, procs: 1500, runs: 800, maxStep: 600000, selftest: true, procWall: 20 * time.Minute},
 }
 
